@@ -7,7 +7,7 @@ echo "##### $D"
 cd $WT && git apply $D/patch.diff || exit 3
 cd /verif
 for prop in "$@"; do
-  out=$(VERIF_REPO=$WT VERIF_MAX_REPORTS=2 ./check $prop --tier quick 2>&1 | grep -v "conda\|KNOWN-FINDING")
+  out=$(VERIF_REPO=$WT VERIF_MAX_REPORTS=2 VERIF_EVIDENCE=0 ./check $prop --tier quick 2>&1 | grep -v "conda\|KNOWN-FINDING")
   echo "$prop: violations=$(echo "$out" | grep -c '^VIOLATION') harness=$(echo "$out" | grep -c 'HARNESS-ERROR') :: $(echo "$out" | grep 'rule=' | head -2 | tr '\n' ' ' | cut -c1-300)"
 done
 cd $WT && git checkout -- src
